@@ -242,6 +242,11 @@ def catchIfNullable (nn : Bool) (f : Fut) (S : Store) : Fut × Store :=
 def nonNullWrap (nn : Bool) (path : Path) (f : Fut) (S : Store) : Fut × Store :=
   if nn then mkMap (.nonNull ⟨path, nonNullMsg⟩) f S else (f, S)
 
+/-- The value of a `__typename` slot (the plan carries the type name as a scalar). -/
+def tnameVal : Comp → Val
+  | .scalar s => .scalar s
+  | _ => .null
+
 /-- `executeField`: call the resolver (event `start`), then either complete the value
     (`completed` is `complete nn c itemPath`, passed in so that the recursion stays structural),
     return the resolver's error, or adapt the promise with `Then(New(select…), continuation)`. -/
@@ -293,7 +298,7 @@ mutual
       match mode with
       | .tname =>
         -- resultMap.Set(i, responseKey, objectType.Name); continue
-        execFields rest path n (i + 1) acc (S.push (.write path i key (match c with | .scalar s => .scalar s | _ => .null)))
+        execFields rest path n (i + 1) acc (S.push (.write path i key (tnameVal c)))
       | _ =>
         let itemPath := path ++ [.key key]
         let (f0, S1) := execField nn mode rerr c itemPath (fun S' => complete nn c itemPath S') S
@@ -322,7 +327,8 @@ mutual
     | .mapOkToAny t => let (f, S1) := construct t S; (mkMapOkToAny f, S1)
     | .mapOkValue v t => let (f, S1) := construct t S; (mkMapOkValue v f, S1)
     | .thenK nn c path t cont => (.thenK nn c path t cont, S)
-    | .thenT tag a b t _ =>
+    | .thenT tag a b t (some k) => (.thenT tag a b t (some k), S)   -- already running: not a description
+    | .thenT tag a b t none =>
       let (f, S1) := construct t S
       match f with
       | .ready r =>
@@ -569,7 +575,7 @@ def execSerial (fuel : Nat) : List Field → Nat → Nat → List Nat → Store 
   | [], n, _, sched, S => (.done (.ok (.obj [] n)), sched, S)
   | .mk key nn mode rerr c :: rest, n, i, sched, S =>
     match mode with
-    | .tname => execSerial fuel rest n (i + 1) sched (S.push (.write [] i key (match c with | .scalar s => .scalar s | _ => .null)))
+    | .tname => execSerial fuel rest n (i + 1) sched (S.push (.write [] i key (tnameVal c)))
     | _ =>
       let (f0, S1) := execField nn mode rerr c [.key key] (complete nn c [.key key]) S
       let (f, S2) := catchIfNullable nn f0 S1
